@@ -123,6 +123,70 @@ func runAdversary(c *drv.Ctx) error {
 	return w.Flush()
 }
 
+func runPause(c *drv.Ctx) error {
+	w := cw.New(c.Out, pauseHeader, "pcase", []cw.Check{{Name: "MISMATCH", Fn: "pcase_ok"}, {Name: "MON06", Fn: "pcase_mon"}})
+	w.ShardSize = 120
+	w.Stats.Rule = "two real GraphSync instances over the mocknet; generated DAG/selector; the responder holds the root and a random part of the DAG, the requestor a random part of that (outside C02-F1/F2); the requestor pauses its request from the incoming-block hook at a block index drawn from 1..blocks-it-will-load (1/8: no pause) and is resumed after a marker request drained the cancelled response's in-flight messages (3/4) or at once (1/4); " +
+		"monitor: delivered (path,node) sequence, missing-block errors, other errors and final store equal the reference ref(plan,L,R), i.e. the unpaused outcome; correspondence: the model with the pause, under three delivery schedules (how much of the response was queued when the pause took effect is not observable). non-trivial = paused after going online; distinct = distinct terms"
+	run := func(path, kind string) error {
+		var pc pauseCase
+		if err := drv.ReplayCase(path, &pc); err != nil {
+			return err
+		}
+		return runPauseCase(w, pc, kind)
+	}
+	if c.Replay != "" {
+		if err := run(c.Replay, "replay"); err != nil {
+			return err
+		}
+		return w.Flush()
+	}
+	for _, f := range c.CorpusFiles("pause") {
+		if err := run(f, "corpus"); err != nil {
+			return fmt.Errorf("%s: %w", f, err)
+		}
+	}
+	n := c.Count(260, 4000)
+	for i := 0; i < n; i++ {
+		if err := runPauseCase(w, pauseCase{Seed: c.R.U64(), Block: -1}, "random"); err != nil {
+			return err
+		}
+	}
+	return w.Flush()
+}
+
+func runTraffic(c *drv.Ctx) error {
+	w := cw.New(c.Out, trafficHeader, "tcase", []cw.Check{{Name: "MISMATCH", Fn: "tcase_ok"}, {Name: "MON24", Fn: "tcase_mon"}})
+	w.ShardSize = 120
+	w.Stats.Rule = "two real GraphSync instances over the mocknet; generated DAG and selector; the requestor's store holds everything (2/5 of the cases) or 3/4 of the blocks; caller-supplied do-not-send-first-blocks (1/3) and do-not-send-cids (1/3); the responder's request hook and cancel listener record what arrives from the wire before a marker request sent after completion (one FIFO queue per peer); " +
+		"monitor: nothing arrives when the local traversal resolves every link, else one request whose do-not-send-first-blocks is max(caller value, blocks loaded locally before the first miss) (absent when 0) and whose do-not-send-cids is the caller's; correspondence: the model's XSend log. non-trivial = a request was sent after at least one local load; distinct = distinct terms"
+	run := func(path, kind string) error {
+		var tc trafficCase
+		if err := drv.ReplayCase(path, &tc); err != nil {
+			return err
+		}
+		return runTrafficCase(w, tc, kind)
+	}
+	if c.Replay != "" {
+		if err := run(c.Replay, "replay"); err != nil {
+			return err
+		}
+		return w.Flush()
+	}
+	for _, f := range c.CorpusFiles("traffic") {
+		if err := run(f, "corpus"); err != nil {
+			return fmt.Errorf("%s: %w", f, err)
+		}
+	}
+	n := c.Count(220, 4000)
+	for i := 0; i < n; i++ {
+		if err := runTrafficCase(w, trafficCase{Seed: c.R.U64()}, "random"); err != nil {
+			return err
+		}
+	}
+	return w.Flush()
+}
+
 func main() {
 	name := "loader"
 	if len(os.Args) > 1 {
@@ -131,6 +195,10 @@ func main() {
 	switch name {
 	case "adversary":
 		drv.Main("adversary", runAdversary)
+	case "traffic":
+		drv.Main("traffic", runTraffic)
+	case "pause":
+		drv.Main("pause", runPause)
 	default:
 		drv.Main("loader", runLoader)
 	}
